@@ -297,6 +297,16 @@ func (w *World) execRaw(o Op) (kind int64, payload []int64) {
 		}
 	case "IterFrom":
 		g := 0
+		if o.B { // the non-const twin IteratorFrom(i) + Get(): the same ITERATOR_FROM at HEAD, the same model operation
+			for it := v.IteratorFrom(int(o.I)); it.Ok(); it.Next() {
+				payload = append(payload, int64(it.Index()), int64(it.Get().GetFloat64()))
+				if g++; g > 10000 {
+					payload = append(payload, C_LOOP)
+					break
+				}
+			}
+			break
+		}
 		for it := v.ConstIteratorFrom(int(o.I)); it.Ok(); it.Next() {
 			payload = append(payload, int64(it.Index()), int64(it.GetConst().GetFloat64()))
 			if g++; g > 10000 {
@@ -517,7 +527,7 @@ func coqCase(c Case) string {
 
 const hdr = "From Coq Require Import ZArith List Bool. Import ListNotations.\nFrom ADV Require Import C11.Model C11.Corr C11.Corr2.\nOpen Scope Z_scope.\n"
 
-const rule = "random histories (<= 40 ops, <= 6 vectors of dim 0..12 growing by Append, values in -8..8, element type drawn from all nine sparse types) over New/At/SetAt(incl. zeros)/ConstAt/Set(sparse|dense)/SET/Reset/ReverseOrder/Swap/Permute/Sort/Slice/AppendVector(sparse|dense)/AppendScalar/Map/MapSet/Reduce/ConstIterator(full|partial|from)/Clone/JointIterator/JOINT3_ITERATOR; 1 in 5 histories also draws malformed ops (out-of-range indices, wrong-length or non-permutation pi, Swap/Slice out of range, Map with f(0)!=0, dimension mismatch); a case is non-trivial iff it contains >= 8 mutating ops, >= 1 index-rebuilding op (Permute/Sort/ReverseOrder), >= 1 sharing op (Slice/AppendVector) and some vector held a stored zero or a value-less index key at some step; distinct = distinct (type, op list)"
+const rule = "random histories (<= 40 ops, <= 6 vectors of dim 0..12 growing by Append, values in -8..8, element type drawn from all nine sparse types) over New/At/SetAt(incl. zeros)/ConstAt/Set(sparse|dense)/SET/Reset/ReverseOrder/Swap/Permute/Sort/Slice/AppendVector(sparse|dense)/AppendScalar/Map/MapSet/Reduce/ConstIterator(full|partial)/ConstIteratorFrom(i) (two of three aimed at a pending zero: start q <= p, p a stored zero or value-less index key and the first index key at/after q; compound = create a pending zero by SetAt(0) | At() | Reset | Map x*0 | Set(dense with zeros), then start there)/Clone/JointIterator/JOINT3_ITERATOR; 1 in 5 histories also draws malformed ops (out-of-range indices, wrong-length or non-permutation pi, Swap/Slice out of range, Map with f(0)!=0, dimension mismatch); a case is non-trivial iff it contains >= 8 mutating ops, >= 1 index-rebuilding op (Permute/Sort/ReverseOrder), >= 1 sharing op (Slice/AppendVector) and some vector held a stored zero or a value-less index key at some step; distinct = distinct (type, op list)"
 
 func readCorpus(path string) []Case {
 	var cs []Case
